@@ -85,6 +85,44 @@ def check_ids(p, when):
             if prev != r: return {'kind': 'same-artifact-id-different-records', 'when': when, 'trail': os.path.relpath(f, p.dir)}
     return None
 
+def check_closure(p, when):
+    """every trail contains the records of all transitively used arguments, tools and sandbox"""
+    for dp, ds, fs in os.walk(p.dir):
+        if 'audit.json.gz' not in fs: continue
+        f = os.path.join(dp, 'audit.json.gz')
+        with gzip.open(f, 'rb') as g: a = json.load(g)
+        refs = {r['artifact-id']: r for r in a.get('references', [])}
+        def deps(r):
+            d = r.get('dependencies', {}); out = list(d.get('args', [])) + list(d.get('tools', {}).values())
+            if d.get('sandbox'): out.append(d['sandbox'])
+            return out
+        todo = deps(a['artifact']); seen = set()
+        while todo:
+            i = todo.pop()
+            if i in seen: continue
+            seen.add(i)
+            if i not in refs: return {'kind': 'audit-incomplete', 'when': when, 'trail': os.path.relpath(f, p.dir), 'missing': i}
+            todo.extend(deps(refs[i]))
+    return None
+
+def identical_checkouts():
+    """two packages whose checkouts are byte-identical (equal Build-Ids of their checkout steps): both records belong into the trail"""
+    import shutil, tempfile
+    base = tempfile.mkdtemp(prefix='c14i-')
+    try:
+        lib = lambda: {'checkoutDeterministic': True, 'checkoutScript': 'echo same > f.txt\n', 'buildScript': 'cp "$1"/f.txt out.txt\n', 'packageScript': 'cp "$1"/out.txt result.txt\n'}
+        R = {'r0': {'root': True, 'depends': ['liba', 'libb'], 'buildScript': 'cat "$2"/result.txt "$3"/result.txt > out.txt\n', 'packageScript': 'cp "$1"/out.txt result.txt\n'}, 'liba': lib(), 'libb': lib()}
+        p = P.Project(root=os.path.join(base, 'proj')); p.write({'recipes': R, 'config': {}})
+        rc, out = p.bob('dev', 'r0')
+        if rc != 0: return None, ['harness problem: project does not build: %s' % out[-200:]]
+        w = check_closure(p, 'two packages with identical checkouts') or check_ids(p, 'two packages with identical checkouts')
+        if w: return w, ['identical checkouts']
+        return None, ['identical checkouts']
+    except Exception as ex:
+        return None, ['harness problem: %r' % (ex,)]
+    finally:
+        shutil.rmtree(base, ignore_errors=True)
+
 def download_history():
     """trails that were parsed from JSON (downloaded artifacts) and then referenced by locally built steps"""
     import shutil, tempfile
@@ -128,7 +166,7 @@ def one_history(seed, steps):
             p.write(model)
             rc, out = p.bob('dev', 'r0', *margs)
             if rc != 0: return None, log          # generated project does not build: not a case
-            w = check_audits(p, p.query(), metas, 'build #%d' % i) or check_ids(p, 'build #%d' % i)
+            w = check_audits(p, p.query(), metas, 'build #%d' % i) or check_ids(p, 'build #%d' % i) or check_closure(p, 'build #%d' % i)
             if w is not None:
                 w['history'] = log; w['meta_args'] = margs; return w, log
             model, d = P.apply_edit(rnd, model, hist); hist.append(model); log.append(d)
@@ -146,7 +184,7 @@ def replay(rep):
     HASHDIR[0] = hashDirectory
     tried = 0; distinct = set(); samples = []; problems = 0
     with cf.ThreadPoolExecutor(max_workers=8) as ex:
-        futs = [ex.submit(download_history)] + [ex.submit(one_history, seed * 1000 + i, 3 if not thorough else 5) for i in range(n)]
+        futs = [ex.submit(download_history), ex.submit(identical_checkouts)] + [ex.submit(one_history, seed * 1000 + i, 3 if not thorough else 5) for i in range(n)]
         for f in cf.as_completed(futs):
             w, log = f.result(); tried += 1
             if log and str(log[-1]).startswith('harness problem'): problems += 1; continue
